@@ -182,15 +182,22 @@ func extractDense(what string, state, r, c int, sm *vk.SplitMix, to func(*mat.De
 	return dst.result(what)
 }
 
-func condRange(what string, cond, kappa2 float64, n int) *vk.Failure {
-	// Cond is an estimate of kappa_inf of the triangular factor:
-	// kappa_2/n <= kappa_inf <= n*kappa_2.
+func condRange(what string, cond, kappa2 float64, n int, T *M) *vk.Failure {
+	// Cond is an estimate from below of kappa_inf of the triangular factor:
+	// kappa_inf <= n*kappa_2 (hard upper bound); the lower side is the bound the
+	// estimator always attains (altLower) for the k×k triangle of T.
 	fn := float64(n)
 	if !(cond <= kappa2*fn*(1+1e-6)) {
 		return failf(what+"-cond-upper", "Cond=%g exceeds n*kappa_2=%g", cond, kappa2*fn)
 	}
-	if !(cond >= kappa2/(fn*estFactor)*(1-1e-6)) {
-		return failf(what+"-cond-lower", "Cond=%g below kappa_2/(n*%g)=%g", cond, estFactor, kappa2/(fn*estFactor))
+	Tk := newM(n, n)
+	for i := 0; i < n; i++ {
+		copy(Tk.d[i*n:(i+1)*n], T.d[i*T.c:i*T.c+n])
+	}
+	if _, _, inv, ok := luRef(Tk); ok {
+		if f := condLower(what+"-cond-lower", cond, normInf(Tk), inv.t(), kappa2/fn); f != nil {
+			return f
+		}
 	}
 	return nil
 }
@@ -311,7 +318,7 @@ func checkQRLQ(c qrlqCase) *vk.Failure {
 			return failf("cond-singular", "%s class zero: Cond=%v want +Inf", c.Type, cond)
 		}
 	} else if !g.ill {
-		if f := condRange(c.Type, cond, g.kappa2, k); f != nil {
+		if f := condRange(c.Type, cond, g.kappa2, k, T); f != nil {
 			return f
 		}
 	}
